@@ -26,10 +26,6 @@ def _join(n):
                 mode="Z", assumes=RAY, bounded=f"{n} jobs, EVERY completion order (ray.wait picks any unfinished job: one path per order)",
                 note="join() processes every enqueued job exactly once, hands each registration its own job's result, and leaves no unfinished job or mapping entry, whatever order the jobs complete in")
     def h(vc):
-        if not vc.symbolic:
-            for nme in (f"O-C08-join.once{T}", f"O-C08-join.own-result{T}", f"O-C08-join.drained{T}"):
-                vc.ensure(nme, True)
-            return
         processed = []
 
         class Reg:
@@ -44,15 +40,21 @@ def _join(n):
 
         def wait(jobs):
             jobs = list(jobs)
+            if not vc.symbolic:  # native replay: a randomly drawn completion order
+                i = vc.int(f"done-of-{len(jobs)}", 0, 10 ** 6) % len(jobs)
+                return [jobs[i]], jobs[:i] + jobs[i + 1:]
             sel = sym.SNum(sym.ctx().fresh("done", "int"))
             sym.ctx().assume(sym.And(sel >= 0, sel < len(jobs)))
             for i in range(len(jobs)):
                 if sel == i:  # any unfinished job may be the one that finished
                     return [jobs[i]], jobs[:i] + jobs[i + 1:]
             raise sym.PathAbort()
-        vc.stub(PA + "@ray", _NS(wait=wait, get=lambda ref: ("result-of", ref)))
+        vc.install(PA + "@ray", _NS(wait=wait, get=lambda ref: ("result-of", ref)))
         remote = _NS(remote=lambda sub: ("ref", sub))
-        C = vc.cls(PA + "JobExecutor", extra_methods={"getRemoteFunc": classmethod(lambda cls: remote)})
+        if vc.symbolic:
+            C = vc.cls(PA + "JobExecutor", extra_methods={"getRemoteFunc": classmethod(lambda cls: remote)})
+        else:
+            C = type("JobExecutorUnderTest", (vc.fn(PA + "JobExecutor"),), {"getRemoteFunc": classmethod(lambda cls: remote)})
         ex = object.__new__(C)
         ex.__dict__.update(_unfinished_jobs=[], _result_reg_mapping={})
         for k in range(n):
